@@ -434,23 +434,6 @@ theorem endpoint_wire_nonce_unique (C : Crypto) (L : Loc) (isClient : Bool) (fp 
 
 /-! ### after a local close() -/
 
-/-- an endpoint whose loop has ended and whose state is not Connected does nothing any more, whatever
-happens to it: datagrams are not read, `send()` is refused, timers and a further `close()` find no task -/
-theorem dead_and_not_connected_is_final (C : Crypto) (L : Loc) (e : Ep) (ha : e.alive = false) (hc : e.conn ≠ .connected) :
-    ∀ ops : List Op, runOps C L e ops = (e, []) := by
-  intro ops
-  induction ops with
-  | nil => rfl
-  | cons o os ih =>
-    have h1 : stepOp C L e o = (e, []) := by
-      cases o with
-      | packet dec bs => simp [stepOp, onPacket, ha]
-      | send d => simp [stepOp, onSend, hc]
-      | close => simp [stepOp, onClose, ha]
-      | tick => simp [stepOp, onTick, ha]
-      | deadline => simp [stepOp, onDeadline, ha]
-    simp only [runOps, h1, ih, List.append_nil]
-
 /-- **nothing follows a local `close()`**: the close branch of a running loop seals at most the
 close_notify alert, stores and publishes `Closed` and ends the task; from then on the transport sends
 nothing, delivers nothing and never changes again — in particular every `send()` that *starts* after
